@@ -93,7 +93,10 @@ def run_case(case, acc, order):
         tie = any(train[i] == train[i + 1] for i in range(n - 1))
         for (b, half) in PARAMS:
             bin_size = b / rate
-            window = (2 * half + 1) * bin_size
+            # the window is 2*half+1 bins, or (dyadic rates, so that the products are exact) half a bin
+            # more: the half-window is still floor(window / (2 bin)) = half
+            extra = 0.5 if (rate in (1.0, 2.0, 0.5, 1024.0) and (b + half) % 2 == 0) else 0.0
+            window = (2 * half + 1 + extra) * bin_size
             edge = any((train[j] - train[i]) // b == half for i in range(n) for j in range(i + 1, n))
             nontrivial = len(present) >= 2 and (tie or edge)
             full_ids = list(alphabet) + [EXTRA]
